@@ -108,6 +108,78 @@ def oracle_pr2(ck, m, J, ncol, nrow, x):
     return None
 
 
+def unimodular(rng):
+    """random 2x2 integer matrix with determinant +-1"""
+    m = np.eye(2, dtype=np.int64)
+    for _ in range(rng.randint(1, 3)):
+        t = rng.randint(-2, 2)
+        m = m @ (np.array([[1, t], [0, 1]]) if rng.random() < 0.5 else np.array([[1, 0], [t, 1]]))
+    if rng.random() < 0.5:
+        m = m @ np.array([[0, 1], [1, 0]])
+    return m
+
+
+def integer_pr_bank(rng):
+    """a perfect-reconstruction bank with INTEGER taps of length 2, 4 or 6 that is not a scaled Haar: polyphase
+    matrix P(z) = A0 diag(1, z^-1) A1 ... with unimodular integer A_i; the synthesis filters are the exact solution
+    of the Lean hypothesis PRBank (checked in integer arithmetic before use).  Returns (h0, h1, g0, g1) or None."""
+    stages = rng.choice([0, 1, 1, 2])
+    P = [unimodular(rng)]                       # list of coefficient matrices P_m of z^-m
+    for _ in range(stages):
+        A = unimodular(rng)
+        Q = [np.zeros((2, 2), dtype=np.int64) for _ in range(len(P) + 1)]
+        for mth, Pm in enumerate(P):            # P(z) * diag(1, z^-1) * A
+            Q[mth] += Pm @ np.diag([1, 0]) @ A
+            Q[mth + 1] += Pm @ np.diag([0, 1]) @ A
+        P = Q
+    L = 2 * len(P)
+    h0 = np.array([P[j // 2][0, j % 2] for j in range(L)], dtype=np.float64)
+    h1 = np.array([P[j // 2][1, j % 2] for j in range(L)], dtype=np.float64)
+    # PRBank is linear in (g0, g1)
+    rows, rhs = [], []
+    for p_ in (0, 1):
+        for d in range(-(L - 1), L):
+            r = np.zeros(2 * L)
+            for a in range(p_, L, 2):
+                i = d + L - 1 - a
+                if 0 <= i < L:
+                    r[i] += h0[a]; r[L + i] += h1[a]
+            rows.append(r); rhs.append(1.0 if d == 0 else 0.0)
+    A = np.array(rows); b = np.array(rhs)
+    sol = np.linalg.lstsq(A, b, rcond=None)[0]
+    g = np.round(sol)
+    if not np.array_equal(A @ g, b):
+        return None
+    return h0, h1, g[:L].copy(), g[L:].copy()
+
+
+def oracle_pr_bank(ck, dims, m, J, bank, x):
+    """exact round trip for an integer bank satisfying PRBank (the hypothesis class of the Lean theorems)"""
+    h0, h1, g0, g1 = bank
+    L = len(h0)
+    desc = '%dD PR integer bank h0=%s h1=%s mode=%s J=%d shape=%s' % (dims, h0.astype(int).tolist(), h1.astype(int).tolist(), gen.MODE_NAME[m], J, tuple(x.shape))
+    replay = {'oracle': 'pr_bank', 'dims': dims, 'm': m, 'J': J, 'bank': [arr_json(v) for v in bank], 'x': arr_json(x)}
+    fop, iop = ('DWT1DForward', 'DWT1DInverse') if dims == 1 else ('DWTForward', 'DWTInverse')
+    fw = rt.run_impl(rt.Case('Z', fop, [m, J] + ([2] if dims == 2 else []), [h0, h1, x]), IMPL)
+    if isinstance(fw, tuple):
+        ck.oracle_ok(('raise', dims, m), nontriv=False, group='forward-raises'); return None
+    if dims == 1:
+        sizes, _ = level_sizes(x.shape[-1], L, m, J)
+        short = per_short_fwd(sizes, L, m) or per_short_inv([(n + 1) // 2 for n in sizes], L, m)
+    else:
+        sh, _ = level_sizes(x.shape[-2], L, m, J); sw, _ = level_sizes(x.shape[-1], L, m, J)
+        short = (per_short_fwd(sh, L, m) or per_short_fwd(sw, L, m) or per_short_inv([(n + 1) // 2 for n in sh], L, m) or per_short_inv([(n + 1) // 2 for n in sw], L, m))
+    bw = rt.run_impl(rt.Case('Z', iop, [m] + ([2] if dims == 2 else []), [g0, g1] + list(fw)), IMPL)
+    if isinstance(bw, tuple):
+        ck.fail(desc + ': inverse raises %s: %s' % (bw[1], bw[2]), replay, known_key=KF if short else None); return 'raise'
+    y = bw[0]
+    yc = y[..., :x.shape[-1]] if dims == 1 else y[..., :x.shape[-2], :x.shape[-1]]
+    if yc.shape != x.shape or not np.array_equal(yc, x):
+        ck.fail(desc + ': inverse(forward(x)) != x (exact integer arithmetic)', replay, known_key=KF if short else None); return 'diff'
+    ck.oracle_ok(('bank', dims, m, J, L, tuple(x.shape)), group='pr-integer-banks', sample={'h0': h0.tolist(), 'h1': h1.tolist(), 'g0': g0.tolist(), 'g1': g1.tolist(), 'mode': gen.MODE_NAME[m], 'J': J, 'shape': list(x.shape)})
+    return None
+
+
 def prbank_defect(w):
     """largest violation of the polyphase biorthogonality conditions (the hypothesis `PRBank` of the Lean theorem
     WV.C02.pr_zero) by a PyWavelets filter bank"""
@@ -136,6 +208,20 @@ def oracle(ck, extended):
     for n, v in defects.items():
         if n != 'dmey' and v > 1e-9:
             ck.fail('wavelet %s violates the biorthogonality conditions by %.3g' % (n, v), {'oracle': 'prbank', 'name': n})
+    # integer banks satisfying the hypothesis PRBank of the Lean theorems (not Haar-like): exact round trips
+    made = 0
+    for it in range((40 if q else 400) * (3 if extended else 1)):
+        bank = integer_pr_bank(rng)
+        if bank is None or max(abs(v) for f in bank for v in f) > 60:
+            continue
+        made += 1
+        L = len(bank[0]); m = rng.choice(gen.MODES5); J = rng.randint(1, 2)
+        if it % 2 == 0:
+            N = rng.choice([2 * L, 2 * L + 1, L + 1, rng.randint(max(2, L), 24)])
+            rt.guard(ck, oracle_pr_bank, ck, 1, m, J, bank, gen.int_tensor(rng, (1, rng.randint(1, 2), N), 4))
+        else:
+            rt.guard(ck, oracle_pr_bank, ck, 2, m, J, bank, gen.int_tensor(rng, (1, 1, rng.randint(max(2, L), 14), rng.randint(max(2, L), 14)), 4))
+    ck.extra['integer_pr_banks_used'] = made
     names = pywt.wavelist(kind='discrete')
     n = (140 if q else 1500) * (3 if extended else 1)
     for it in range(n):
